@@ -545,6 +545,18 @@ def instance_descriptor(f):
     return _f
 
 
+def _is_foreign_method_watcher(watcher, obj):
+    """
+    Whether the watcher runs a depends(..., watch=True) method of an object
+    other than obj (i.e. obj is a sub-object that method depends on).
+    """
+    fn = watcher.fn
+    if not hasattr(fn, '_watcher_name'):
+        return False
+    function = getattr(fn, 'keywords', {}).get('function')
+    return function is not None and getattr(function, '__self__', obj) is not obj
+
+
 def get_method_owner(method):
     """Get the instance that owns the supplied method."""
     if not inspect.ismethod(method):
@@ -5301,6 +5313,26 @@ class Parameterized(metaclass=ParameterizedMetaclass):
         for slot in get_occupied_slots(self):
             state[slot] = getattr(self,slot)
 
+        # Watchers that a depends(..., watch=True) method of another object
+        # installed on this one (dependencies on sub-object parameters), and
+        # this object's record of the ones it installed elsewhere, are not
+        # part of the state: the owner sets them up again in __setstate__.
+        private = state.get('_param__private')
+        if isinstance(private, _InstancePrivate):
+            foreign = [
+                w for attrs in private.watchers.values() for ws in attrs.values()
+                for w in ws if _is_foreign_method_watcher(w, self)
+            ]
+            if foreign or private.dynamic_watchers:
+                private = copy.copy(private)
+                private.watchers = {
+                    p: {attr: [w for w in ws if not any(w is f for f in foreign)]
+                        for attr, ws in attrs.items()}
+                    for p, attrs in private.watchers.items()
+                }
+                private.dynamic_watchers = defaultdict(list)
+                state['_param__private'] = private
+
         # Note that Parameterized object pickling assumes that
         # attributes to be saved are only in __dict__ or __slots__
         # (the standard Python places to store attributes, so that's a
@@ -5348,6 +5380,10 @@ class Parameterized(metaclass=ParameterizedMetaclass):
         for name,value in state.items():
             setattr(self,name,value)
         self._param__private.initialized = True
+        # Set up again the watchers of depends(..., watch=True) methods on
+        # the parameters of the sub-objects of this (new) object
+        if any(dynamic for *_, dynamic in type(self).param._depends['watch']):
+            self.param._update_deps()
 
     @_recursive_repr()
     def __repr__(self):
